@@ -1,0 +1,29 @@
+// +build verif
+
+package state
+
+import "sort"
+
+// Verification hooks (build tag "verif" only): read-only snapshot of the context registry.
+
+type VerifContextsSnapshot struct {
+	HasWatermark bool
+	Watermark    HeightView
+	Live         []HeightView // sorted
+	Shutdown     bool
+}
+
+func (w *ViewContexts) VerifSnapshot() VerifContextsSnapshot {
+	w.mutex.Lock()
+	defer w.mutex.Unlock()
+	s := VerifContextsSnapshot{Shutdown: w.shutdown}
+	if w.newestHvCanceledOlder != nil {
+		s.HasWatermark = true
+		s.Watermark = *w.newestHvCanceledOlder
+	}
+	for hv := range w.hvToContext {
+		s.Live = append(s.Live, hv)
+	}
+	sort.Slice(s.Live, func(i, j int) bool { return s.Live[i].OlderThan(&s.Live[j]) })
+	return s
+}
